@@ -152,6 +152,20 @@ def mutants(ctx, name, h, body):
         s = seal_raw(raw)
         if s:
             out.append(("header-cut-at=%d-sealed" % cut, "sealed-cut", s))
+    # ... the same cuts with an index size of 2^64-1 (ten bytes): a sum with it wraps, so a bound derived from the declared index
+    # size instead of the bytes that are there lets the last integer run out of the buffer
+    h4 = clone(h)
+    h4.raw["isize"] = bytes([0x7f] * 9 + [0x81])
+    hb4 = h4.build(seal=False)
+    try:
+        lead4 = zckref.parse(seal_raw(hb4 + body)).lead_len
+    except Exception:
+        lead4 = p.lead_len
+    for cut in range(lead4 + 12, len(hb4)):
+        raw = hb4[:5] + enc_ci(h.htype) + enc_ci(cut - lead4) + hb4[p.digest_loc:cut]
+        s = seal_raw(raw)
+        if s:
+            out.append(("header-cut-at=%d-isize=2^64-1-sealed" % cut, "sealed-cut-huge-isize", s))
     for cut in range(0, len(base)):
         out.append(("truncated=%d" % cut, "truncation", base[:cut]))
     return out
